@@ -310,6 +310,10 @@ def run_case(case, prefix=None):
                         res.fail(P + "/read-removes", "RX FIFO had %d payloads, %d after one read()" % (len(rx_before), len(D.rxf)))
                     if D.flags & 0x40:
                         res.fail(P + "/read-leaves-data-ready", "RX_DR still set after read()")
+                    # read() is a transaction: afterwards `pipe` describes the NEXT payload (or None), not the one just removed
+                    nxt = D.rxf[0][1] if D.rxf else None
+                    if not lite and r.pipe != nxt:
+                        res.fail(P + "/pipe-after-read", "after read() pipe = %r, the next payload is on pipe %r" % (r.pipe, nxt))
                 if (D.flags ^ fl_before) & 0x30:
                     res.fail(P + "/read-touches-tx-flags", "flags 0x%02X -> 0x%02X over read()" % (fl_before, D.flags))
                 if [bytes(e.payload) for e in D.txf] != tx_before:
